@@ -24,6 +24,7 @@ import numpy as np
 import sympy as sp
 
 from ..core import norm, calls_in, AnalysisError
+from .. import dtypeflow
 from ..symx import SymEval, SymObj, PyStub, Path, Opaque, WouldRaise, ModelError, module_aliases, symarray, is_zero, equal, arr, is_arr
 
 ISO = 'atomman/defect/IsotropicVolterraDislocation.py'
@@ -544,10 +545,16 @@ def dispatch(ctx):
                str(calls)[:300], node=fn, key=tag)
 
 
+def float_fields(ctx):
+    """strain and stress are assembled component by component in a buffer; the buffer is float for whole-number field points too"""
+    dtypeflow.float_buffers(ctx, 'FLOAT-FIELDS', ISO, 'IsotropicVolterraDislocation.strain', floor=9, what='strain components')
+    dtypeflow.float_buffers(ctx, 'FLOAT-FIELDS', ISO, 'IsotropicVolterraDislocation.stress', floor=9, what='stress components')
+
+
 def run(ctx):
     ctx.explanation = ('C12: the isotropic closed forms are evaluated in three (m,n,ξ) frames and differentiated by the CAS (strain = sym grad u, Hooke, div σ = 0, 1/r, Burgers jump, K tensor, '
                        'θ branch table); the Stroh sums are evaluated with generic symbolic eigen-data (strain = sym grad u, stress = C:grad u, K, η, N blocks, A/L split, k, guarded storage); orientation '
                        'handling is evaluated with recording stubs (same rotation for b and C, four input routes, sibling transform, m/n validation, relative round-off); the solver dispatch is evaluated '
                        'with a raising model of the anisotropic solver; the plane-normal construction used by the Miller route is decided as in C16. Not decided: accuracy of the numerical eigen-solution, positive-definiteness, the isotropic limit.')
     from .c16 import plane_normal     # the Miller route (ξ_uvw, slip_hkl) gets its n axis from miller.plane_crystal_to_cartesian
-    ctx.run_rules([isotropic, stroh, frame, dispatch, plane_normal])
+    ctx.run_rules([isotropic, stroh, frame, dispatch, plane_normal, float_fields])
